@@ -17,6 +17,7 @@ def _mod(name):
 
 REGISTRY = {
     "C10": _mod("p_bs"),
+    "C18": _mod("p_stats"),
     "C03": _call("C03"),
     "C04": _call("C04"),
 }
